@@ -14,8 +14,11 @@ Stack(ts) == ts
 Slice(v, i) == v[i + 1]
 AddElement(v, i, e) == [v EXCEPT ![i + 1] = e]
 
+(* elements of two leaves are equal: same dtype class -> exact encodings coincide; different classes (int vs float)
+   -> the numeric values coincide (compared in exact quarters; the harness only builds such pairs from quarters) *)
+SameElements(x, y) == IF x.cls = y.cls THEN x.data = y.data ELSE x.exact4 /\ y.exact4 /\ x.num4 = y.num4
 IsEqual(a, b) == /\ Len(a) = Len(b)
-                 /\ \A j \in 1..Len(a) : a[j].shape = b[j].shape /\ a[j].data = b[j].data
+                 /\ \A j \in 1..Len(a) : a[j].shape = b[j].shape /\ SameElements(a[j], b[j])
 
 TransposeLaw(e) ==
   { <<"C19.stack_view", e.outcome = "ok" /\ e.out_view = Stack(e.inputs) /\ e.out_shapes_ok>>,
